@@ -12,10 +12,27 @@ HERE = os.path.dirname(os.path.abspath(__file__))
 VERIF = os.path.dirname(HERE)
 REPO = os.environ.get("VERIF_REPO", "/repo")
 LEAN_DIR = os.path.join(VERIF, "lean")
+if os.path.realpath(REPO) != "/repo" and not os.environ.get("VERIF_SHARED_LEAN"):
+    # Testing against a scratch copy of the repository (VERIF_REPO=...): work in a private copy of
+    # the Lean project so that the regenerated Gen files of a mutated tree never touch /verif/lean.
+    import subprocess as _sp
+    _private = "/tmp/verif-lean-" + hashlib.sha256(os.path.realpath(REPO).encode()).hexdigest()[:10]
+    os.makedirs(_private, exist_ok=True)
+    _sp.run(["rsync", "-a", "--delete", "--exclude", ".lake/verif.lock", "--exclude", "IsoDT/Gen/",
+             LEAN_DIR + "/", _private + "/"], check=True)
+    os.makedirs(os.path.join(_private, "IsoDT", "Gen"), exist_ok=True)
+    for _name in os.listdir(os.path.join(LEAN_DIR, "IsoDT", "Gen")):
+        _dst = os.path.join(_private, "IsoDT", "Gen", _name)
+        if not os.path.exists(_dst):
+            _sp.run(["cp", "-p", os.path.join(LEAN_DIR, "IsoDT", "Gen", _name), _dst], check=True)
+    LEAN_DIR = _private
 GEN_DIR = os.path.join(LEAN_DIR, "IsoDT", "Gen")
 DRIVER = os.path.join(LEAN_DIR, ".lake", "build", "bin", "driver")
 EVIDENCE_DIR = os.path.join(VERIF, "evidence")
 REPLAY_DIR = os.path.join(VERIF, "replays")
+if LEAN_DIR.startswith("/tmp/verif-lean-"):
+    EVIDENCE_DIR = os.path.join(LEAN_DIR, "evidence")
+    REPLAY_DIR = os.path.join(LEAN_DIR, "replays")
 CORPUS_DIR = os.path.join(VERIF, "corpus")
 KNOWN_FINDINGS = os.path.join(VERIF, "known_findings.json")
 GUARD = "METOMI_ISODATETIME_VERIF"
